@@ -103,6 +103,15 @@ PROPS = {
                         "built-in types and the standard scalars are left out of the model's schemas"],
         "partial": "Implements/PossibleTypes recomputation is compared through the order-free schema signature on the Go side, not modelled in Coq",
     },
+    "C09": {
+        "harness": [{"name": "c09"}],
+        "n_quick": 240, "n_thorough": 6000,
+        "known_for": ["C09"],
+        "assumptions": ["gqlparser's LoadSchema decides which mutated schemas are GraphQL at all (others are skipped and counted)",
+                        "'stays valid once the plumbing is removed' is an oracle flag recomputed by the harness with MergeSchemas + formatter + LoadSchema, independently of ValidateSchema",
+                        "built-in types and the standard scalars are left out of the model's schemas"],
+        "partial": "'conforming => accepted' is decided per generated case (no formal grammar of the documented syntax); 'accepted => no planning or lookup error' is a theorem only up to the lookup table (C09_accepted_has_lookup_entries) and is otherwise exercised by serving accepted federations with random valid queries",
+    },
     "C08": {
         "harness": [{"name": "c08"}],
         "n_quick": 150, "n_thorough": 3000,
@@ -188,6 +197,11 @@ META = {
         "text": "Model of merge.go (MergeSchemas, mergeTypes, namespace and boundary object merging, and the three table builders) in Model/Merge.v. Theorems: the fields of a merged shared type are exactly the union of both sides' fields minus the key (C07_shared_type_fields_are_the_union); nothing enters by silent resolution of a conflict (C07_nothing_enters_by_silent_resolution). Tie + oracle on every run: random federations generated from an annotated monolith and split by the documented rules; the model's merged schema and Locations/IsBoundary/BoundaryQueries must equal what the real code published after polling; the published schema must equal the monolith the services were split from (types, kinds, fields, arguments with defaults, nullability, interfaces, members, enum values), contain no plumbing, and every field must have exactly one declaring service to which Locations routes it.",
         "note": "Validity of the merged schema is established by comparison with the (gqlparser-loaded) monolith. Full completeness/soundness of the fold over n schemas is not yet a theorem.",
         "technique": "Coq model + fold-invariant proofs; generated federations; monolith oracle; differential correspondence of merged schema and routing tables",
+    },
+    "C09": {
+        "text": "Model of validate.go (every rule function, ValidateSchema's order, the visited-set recursion over namespace links) in Model/Validate.v. Theorems, for every schema: C09_accepted_obeys_rules (whatever is accepted satisfies each listed rule: root names, the exact shape of Query.service and Service, id: ID! on every boundary object, every marked lookup well typed in single or array form and exactly one per boundary object, namespace types only inside namespaces or roots, every namespace link reachable from a root non-null at any depth incl. cyclic namespaces - a DFS closure proof, validity after merge), C09_accepted_has_lookup_entries (the executor's lookup table then has an entry for every boundary type the service declares), C09_legacy_syntax_refuted (the former Node syntax is accepted and yields an empty lookup table: known finding). Tie on every run: service schemas of random federations x 41 single-rule mutations at random positions (AST level, reprinted and reloaded), verdict and failing stage of the real ValidateSchema vs the model; oracles: every rule-breaking mutant rejected with an error (never a panic), every conforming variant accepted, accepted federations polled and served with random valid queries without planning/lookup errors.",
+        "note": "Three genuine defects found while modelling and repaired (fix: commits): nil Query dereference, unbounded recursion on cyclic namespaces, lookups unchecked when no boundary type is declared (then Arguments[0] panics in buildBoundaryFieldsMap). 'Follows the documented syntax' has no formal definition: the generator's conforming schemas stand for it.",
+        "technique": "Coq model + proofs (case analysis per rule, counting lemma for 'exactly one', DFS-closure induction on fuel) + refutation witness; differential correspondence on mutated schemas; serve-and-query oracle",
     },
     "C08": {
         "text": "Theorem C08_conflict_fails: for ALL pairs of schemas, if the accumulated schema and the new one define the same name and the pair is a conflict (different kinds; a non-shared object/interface/union/enum/input defined twice; boundary vs plain; namespace vs boundary; non-object federation type) the pairwise merge fails, wherever the definition sits and whatever else the schemas contain (induction over the fold with an invariant on the accumulator); C08_overlapping_boundary_field_fails for the field-level conflict. Order independence is decided per case: all n! merge orders (n <= 4) through the real MergeSchemas must give the same outcome and the same order-free schema signature; the routing tables after polling must not depend on the poll completion order (two forced orders); 35% of the cases carry one injected conflict of 10 kinds, which every order must reject.",
